@@ -123,12 +123,15 @@ def diff_dicts(a: "map", b: "map", path: "path", config: "cfg") -> "Seq[ME]":
                          not (same_type(a[s], b[s]) and not is_atomic(a[s], path_key(path, s))), a[s] == b[s]) for s in STR))
     ensures(wf_map(result, a))
     ensures(apply_map(a, result) == b)
+    # deep well-formedness (C11): the nested diff of every patch entry is well formed for the value it patches
+    ensures(all(implies(result[q].op == "patch", wf_v(a[result[q].key], result[q].diff)) for q in range(len(result))))
     with loop(1, index="k1"):
         invariant(akeys == keys_of(a) and bkeys == keys_of(b))
         invariant(all(implies(s in di._diff, s in a and not (s in b) and key_pos(kdiff(akeys, bkeys), s) < k1) for s in STR))
         invariant(all(implies(s in a and not (s in b) and key_pos(kdiff(akeys, bkeys), s) < k1, s in di._diff) for s in STR))
         invariant(all(implies(s in di._diff, di._diff[s].key == s and di._diff[s].op == "remove") for s in STR))
     with loop(2, index="k2"):
+        invariant(all(implies(s in di._diff and di._diff[s].op == "patch", wf_v(a[s], di._diff[s].diff)) for s in STR))
         invariant(akeys == keys_of(a) and bkeys == keys_of(b))
         invariant(all(implies(s in a and not (s in b), s in di._diff) for s in STR))
         invariant(all(implies(s in di._diff, (s in a and not (s in b)) or
@@ -143,6 +146,7 @@ def diff_dicts(a: "map", b: "map", path: "path", config: "cfg") -> "Seq[ME]":
                               (di._diff[s].op == "replace" and has_value(di._diff[s]) and di._diff[s].value == b[s]))
                       for s in STR))
     with loop(3, index="k3"):
+        invariant(all(implies(s in di._diff and di._diff[s].op == "patch", wf_v(a[s], di._diff[s].diff)) for s in STR))
         invariant(akeys == keys_of(a) and bkeys == keys_of(b))
         invariant(all(implies(s in a and not (s in b), s in di._diff) for s in STR))
         invariant(all(implies(s in a and s in b and not (s in di._diff), a[s] == b[s]) for s in STR))
@@ -202,6 +206,7 @@ def diff_strings_linewise(a: "V", b: "V") -> "Seq[E]":
     # Exercised at run time by the bounded stand-ins (strings with \r, \x0b, \x85, missing final newline).
     requires(is_str(a) and is_str(b))
     ensures(apply_v(a, result) == b)
+    ensures(wf_v(a, result))
     ensures(all((result[q].op == "addrange" or result[q].op == "removerange" or result[q].op == "patch") and
                 implies(result[q].op == "addrange", has_valuelist(result[q])) and implies(result[q].op == "removerange", has_length(result[q]))
                 for q in range(len(result))))
@@ -223,3 +228,26 @@ def diff(a: "V", b: "V", path: "path", config: "cfg") -> "Seq[E]":
                                              not (same_type(as_map(a)[s], as_map(b)[s]) and not is_atomic(as_map(a)[s], path_key(path, s))),
                                              as_map(a)[s] == as_map(b)[s]) for s in STR)))
     ensures(apply_v(a, result) == b)
+    # C11 for generic diffs: the result is well formed for `a` all the way down
+    ensures(wf_v(a, result))
+
+
+# ------------------------------------------------------------------ the round trip as client code over the two contracts
+
+@lemma("roundtrip_generic")
+def roundtrip_generic(a: "V", b: "V", path: "path", config: "cfg"):
+    # C02 for containers: whatever satisfies the differ's preconditions can be handed to patch, and comes back as b.
+    # Both calls go through the callee CONTRACTS (diff's postconditions are all patch gets to know).
+    requires(diffable(a, b))
+    requires(differs_ok() and atomic_ok())
+    requires(implies(is_list(a), len(preds_at(path)) >= 1))
+    requires(implies(is_list(a) and len(preds_at(path)) == 1,
+                     pred_exact(preds_at(path)[0], path_star(path)) and pred_typed(preds_at(path)[0], path_star(path))))
+    requires(implies(is_list(a) and len(preds_at(path)) > 1, preds_diffable(preds_at(path))))
+    requires(implies(is_dict(a), not has_preds(path_norm(path))))
+    requires(implies(is_dict(a), all(implies(s in as_map(a) and s in as_map(b) and pyeq(as_map(a)[s], as_map(b)[s]) and
+                                             not (same_type(as_map(a)[s], as_map(b)[s]) and not is_atomic(as_map(a)[s], path_key(path, s))),
+                                             as_map(a)[s] == as_map(b)[s]) for s in STR)))
+    d = call("nbdime.diffing.generic.diff", a, b, path, config)
+    r = call("nbdime.patching.patch", a, d)
+    check(r == b)
